@@ -7,7 +7,7 @@ EX = "exploration"
 CHECKS = {
  "C01": dict(cat=MC, engine="E1",
    technique="explicit-state exploration of the real canister (exhaustive DFS over block-arrival histories with transaction bodies, duplicate detection on the complete logical state) with a brute-force ledger replay as oracle",
-   text="Every state reachable by <= n blocks (n=4 quick, 5 thorough) over a menu of 8 transaction bodies (<= 2-3 non-default per history), all tree shapes and arrival orders, thresholds 1-3, three networks: every book address (P2PKH, P2SH, P2WPKH, P2WSH, P2TR, a colliding P2WPKH/P2WSH prefix pair) is queried with all pages followed (page sizes 1000 and 1/2) and compared, as a set with values and heights, with the ledger replayed from genesis to the named tip. Plus the real 1000-per-page limit on 999..2001 outputs, and a tall-chain family (stable + unstable stretch of hundreds of blocks).",
+   text="Every state reachable by <= n blocks (n=4 quick, 5 thorough) over a menu of 8 transaction bodies (<= 2-3 non-default per history), all tree shapes and arrival orders, thresholds 1-3, three networks: every book address (P2PKH, P2SH, P2WPKH, P2WSH, P2TR, a colliding P2WPKH/P2WSH prefix pair) is queried with all pages followed (page sizes 1000 and 1/2) and compared, as a set with values and heights, with the ledger replayed from genesis to the named tip. Plus the real 1000-per-page limit on 999..2001 outputs, a tall-chain family (stable + unstable stretch of hundreds of blocks), and a part with sliced ingestion and one upgrade at any boundary (states in the middle of an ingestion, before and after an upgrade).",
    note="domain: transaction-valid blocks; address<->script mapping and hashing shared with rust-bitcoin; order inside one height not compared",
    ref="DESIGN.md §6 C01"),
  "C02": dict(cat=MC, engine="E1",
@@ -22,11 +22,11 @@ CHECKS = {
    ref="DESIGN.md §6 C03"),
  "C04": dict(cat=MC, engine="E1",
    technique="explicit-state exploration of the real canister; in every state all c in [1, L+2] x all addresses against the ledger at B(c) recomputed from the stability-count definition",
-   text="LEDGER/TREE histories as C01 (equal and mixed difficulty); for every address and every c the named tip must be B(c) and the paged answer must equal the ledger at B(c); c > L must be refused with the explicit error.",
+   text="LEDGER/TREE histories as C01 (equal and mixed difficulty); for every address and every c the named tip must be B(c) and the paged answer must equal the ledger at B(c); c > L must be refused with the explicit error. One part adds sliced ingestion and an upgrade at any boundary.",
    note="c=0 belongs to C01/C02", ref="DESIGN.md §6 C04"),
  "C05": dict(cat=MC, engine="E1",
    technique="explicit-state exploration of the real canister incl. states in the middle of sliced ingestion; differential oracle balance vs sum of paged UTXOs, error classes, query vs update variants",
-   text="In every explored state (forks, the same transaction on two forks with a later spend, paused ingestion with budgets 1/2), for every address and c in {none, 0..L+1}: get_balance == sum over all pages of get_utxos (page size 1000, and 1 and 2 through hook H3); ~45 malformed / foreign-network address strings must be refused by both with the same error class; update variants return what query variants return.",
+   text="In every explored state (forks, the same transaction on two forks with a later spend, paused ingestion with budgets 1/2, after an upgrade at any boundary incl. between two slices), for every address and c in {none, 0..L+1}: get_balance == sum over all pages of get_utxos (page size 1000, and 1 and 2 through hook H3); ~45 malformed / foreign-network address strings must be refused by both with the same error class; update variants return what query variants return.",
    note="differential: needs no reference value", ref="DESIGN.md §6 C05"),
  "C07": dict(cat=MC, engine="E1",
    technique="explicit-state exploration of the real canister with sliced ingestion and upgrades; all (start,end) pairs per state against the reference chain; long-chain boundary family",
@@ -34,11 +34,11 @@ CHECKS = {
    note="where two documented errors apply either is accepted", ref="DESIGN.md §6 C07"),
  "C08": dict(cat=MC, engine="E2",
    technique="exhaustive enumeration of all budget schedules (compositions of the slicing call sites) of a stabilising block, driven through the real heartbeat; state-equality across schedules and probe-equality against the pre-ingestion answers",
-   text="For 7 block shapes (spends of stable outputs, same-block spend, non-address scripts, many addresses, several blocks per round, fork discarded by the advance) all 2^(m-1) sequences of per-round budgets (m <= 14 quick, 18 thorough) are run through heartbeat() with a source that always offers a further block: no fetch while ingesting, every pause position reaches one identical state whatever the schedule, all probe answers at pauses equal those before that block's ingestion began, the final state equals the unsliced run, at most m rounds.",
+   text="For 7 block shapes (spends of stable outputs, same-block spend, non-address scripts, many addresses, several blocks per round, fork discarded by the advance) all 2^(m-1) sequences of per-round budgets (m <= 14 quick, 18 thorough) are run through heartbeat() with a source that always offers a further block: no fetch while ingesting, every pause position reaches one identical state whatever the schedule, all probe answers at pauses equal those before that block's ingestion began, the final state equals the unsliced run, at most m rounds. Plus an upgrade at every pause position: answers unchanged by it, ingestion completes, final answers equal the unsliced run.",
    note="budgets are counted in slicing call sites; statistics masked in fingerprints", ref="DESIGN.md §6 C08"),
  "C06": dict(cat=MC, engine="E2",
    technique="explicit-state exploration of pager/environment interleavings on the real canister (all placements of <= k environment events between page requests), plus exhaustive page-blob and real-limit families",
-   text="From every LEDGER state a pager (page size 1/2, filters none / c=1 / c=2) follows next_page while between any two page requests the environment may deliver a block on any live block (tip growth, competing fork, reorg), ingest (unsliced or one step) or upgrade: every page must name the first tip, the concatenation must equal the ledger at that tip, and once the tip left the tree the answer must be UnknownTipBlockHash. ~400 crafted page blobs x 4 addresses never trap; 2001-output address with the real limit; zero-value outputs at page boundaries; one transaction with up to 1300 outputs to one address whose block stabilises between pages.",
+   text="From every LEDGER state a pager (page size 1/2, filters none / c=1 / c=2) follows next_page while between any two page requests the environment may deliver a block on any live block (tip growth, competing fork, reorg), ingest (unsliced or one step) or upgrade: every page must name the first tip, the concatenation must equal the ledger at that tip (within ceil(k/limit)+2 pages), and once the tip left the tree the answer must be UnknownTipBlockHash. ~400 crafted page blobs x 4 addresses never trap; 2001-output address with the real limit; zero-value outputs at page boundaries; one transaction with up to 1300 outputs to one address whose block stabilises between pages.",
    note="page size 1/2 through hook H3", ref="DESIGN.md §6 C06"),
  "C09": dict(cat=MC, engine="E1",
    technique="explicit-state exploration with an upgrade at every message boundary (incl. paused ingestion and, via the schedule explorer of C13, every fetch-protocol phase); complete probe set and complete logical state compared across the upgrade; differential continuation against the run without the upgrade",
@@ -46,7 +46,7 @@ CHECKS = {
    note="native vector memory stands in for stable memory", ref="DESIGN.md §6 C09"),
  "C10": dict(cat=MC, engine="E1",
    technique="explicit-state exploration of base tree states x exhaustive enumeration of get_successors replies (items x announced headers) fed through the real heartbeat; atomicity by state comparison with the prefix-only reply",
-   text="In every TREE state (<= 3-4 blocks, with and without pending announced headers) every reply of <= 2-3 items over 26 item kinds (incl. valid boundary timestamps, the block of an announced header, a block whose parent is only an announced header) and every announced-header list of <= 2-3 entries over 9 kinds: admitted blocks = longest admissible prefix, exactly one error counter +1 on a reject, complete state equal to the state after the prefix-only reply, heartbeat never traps, retained headers sound and complete; direct-call and heartbeat channels give equal states.",
+   text="In every TREE state (<= 3-4 blocks, with and without pending announced headers) every reply of <= 2-3 items over 26 item kinds (incl. valid boundary timestamps, the block of an announced header, a block whose parent is only an announced header) and every announced-header list of <= 2-3 entries over 10 kinds (incl. a header on top of a retained announced header, live or left over from a discarded fork): admitted blocks = longest admissible prefix, exactly one error counter +1 on a reject, complete state equal to the state after the prefix-only reply, heartbeat never traps, retained headers sound and complete; direct-call and heartbeat channels give equal states.",
    note="regtest (mined) blocks only", ref="DESIGN.md §6 C10"),
  "C11": dict(cat=EX, engine="E3",
    technique="bounded-exhaustive enumeration of header-chain configurations against an independent re-implementation of Core's difficulty and timestamp rules",
@@ -54,7 +54,7 @@ CHECKS = {
    note="accept side on mainnet/testnet unreachable without real proof of work", ref="DESIGN.md §6 C11"),
  "C12": dict(cat=EX, engine="E3",
    technique="bounded-exhaustive enumeration of block mutations against an independent merkle routine and the four clauses of the statement",
-   text="For every transaction count 1..17 (33 thorough): all trailing-2^k duplications closed under composition (every CVE-2012-2459 mutant), every removal, adjacent swap, rotation, coinbase moves/duplicates, with the root left alone and recomputed, through validate_block and insert_block.",
+   text="For every transaction count 1..17 (33 thorough): all trailing-2^k duplications closed under composition (every CVE-2012-2459 mutant), the same with the copies' witnesses altered (same txid, other wtxid), every removal, adjacent swap, rotation, coinbase moves/duplicates, with the root left alone and recomputed, through validate_block and insert_block.",
    note="independent merkle root and txid uniqueness reference", ref="DESIGN.md §6 C12"),
  "C13": dict(cat=MC, engine="E2",
    technique="deviation-bounded exhaustive exploration of message schedules at the get_successors await point (heartbeats parked at a cfg-guarded yield point, harness as executor), duplicate detection on complete state",
@@ -78,11 +78,11 @@ CHECKS = {
    note="inter-canister calls and timers not executed natively", ref="DESIGN.md §6 C17"),
  "C18": dict(cat=EX, engine="E3",
    technique="bounded-exhaustive enumeration of HTTP responses (statuses x header sets x generated bodies incl. every prefix and UTF-8 corruption) through all transform functions",
-   text="All 10 exported transforms + the testnet endpoint: never trap, strip headers, keep status, body empty or canonical; extracted value equals the one known from the generating AST; identical bytes across headers, whitespace, member order, extra members; long bodies (every length to 700/1300 bytes of 1-4-byte characters) alone and inside valid documents.",
+   text="All 10 exported transforms + the testnet endpoint x 7 statuses x ~330 header sets (all subsets of size <= 2 of 18 realistic headers, bulk sets): never trap, strip headers, keep status, body empty or canonical; extracted value equals the one known from the generating AST; identical bytes across headers, whitespace, member order, extra members; long bodies (every length to 700/1300 bytes of 1-4-byte characters) alone and inside valid documents.",
    note="documents rendered from the harness's AST", ref="DESIGN.md §6 C18"),
  "C19": dict(cat=EX, engine="E3",
    technique="bounded-exhaustive enumeration of payload mutations against an independent strict transaction parser and exact round trip",
-   text="12 base transactions x every truncation, 1-byte extension, bit flip, marker/flag edge case x access flag x networks through the real async endpoint: success, counting and unchanged forwarding iff well-formed and permitted; repeated on a canister that is behind its announced headers (send_transaction is exempt from the sync gate), and on a canister initialised with a non-default blocks source (destination of the forwarded call).",
+   text="12 base transactions + 29 with field values at the edges of their types (amount pairs over {0,1,2^63,max-1,max}, 253 inputs/outputs) x every truncation, 1-byte extension, bit flip, marker/flag edge case x access flag x networks through the real async endpoint: success, counting and unchanged forwarding iff well-formed and permitted; repeated on a canister that is behind its announced headers (send_transaction is exempt from the sync gate), and on a canister initialised with a non-default blocks source (destination of the forwarded call).",
    note="payloads where the two references disagree are undecided", ref="DESIGN.md §6 C19"),
  "C20": dict(cat=MC, engine="E1",
    technique="explicit-state exploration with a structural oracle over the serialised unstable-block bookkeeping and the block cache in every state",
